@@ -234,12 +234,53 @@ func checkC01(c *Ctx) (int, error) {
 		cs.Ops = append(cs.Ops, Op{Op: "C"})
 		cases = append(cases, cs)
 	}
+	// inputs made mostly of far back-references of every length (the vector encoders pack eight tokens at a time)
+	nCopies := 60
+	if c.Tier == "thorough" {
+		nCopies = 1000
+	}
+	for i := 0; i < nCopies; i++ {
+		set := accelSettings[(i+int(c.Seed))%len(accelSettings)]
+		n := 100000 + rng.Intn(200000)
+		cs := &WCase{ID: fmt.Sprintf("C01-copies-%d", i), Set: set, Tag: settingTag(set), Data: DataSpec{Class: []string{"copies", "copies", "pruns"}[i%3], Seed: rng.Int63n(1 << 30), Len: n}}
+		cs.Ops = []Op{{Op: "W", N: n}, {Op: "C"}}
+		cases = append(cases, cs)
+	}
+	// size sweeps around the points where the compressed output fills an 8 KiB output piece, and
+	// short inputs with exactly one match at the very end
+	sweep := 1
+	if c.Tier == "thorough" {
+		sweep = 4
+	}
+	for rep := 0; rep < sweep; rep++ {
+		for _, sw := range []struct {
+			class string
+			lo    int
+		}{{"uniform", 8100}, {"uniform", 16290}, {"nearuniform", 8100}, {"digits", 19400}, {"fib", 12000}} {
+			for n := sw.lo; n < sw.lo+110; n++ {
+				set := accelSettings[(n+rep)%len(accelSettings)]
+				cs := &WCase{ID: fmt.Sprintf("C01-sweep-%s-%d-%d", sw.class, n, rep), Set: set, Tag: settingTag(set), Data: DataSpec{Class: sw.class, Seed: rng.Int63n(1 << 30), Len: n}}
+				cs.Ops = []Op{{Op: "W", N: n}, {Op: "C"}}
+				cases = append(cases, cs)
+			}
+		}
+		for i := 0; i < 400; i++ {
+			set := accelSettings[i%len(accelSettings)]
+			n := 16 + rng.Intn(600)
+			cs := &WCase{ID: fmt.Sprintf("C01-onerepeat-%d-%d", i, rep), Set: set, Tag: settingTag(set), Data: DataSpec{Class: "onerepeat", Seed: rng.Int63n(1 << 30), Len: n}}
+			cs.Ops = []Op{{Op: "W", N: n}, {Op: []string{"C", "F"}[i%2]}}
+			if i%2 == 1 {
+				cs.Ops = append(cs.Ops, Op{Op: "C"})
+			}
+			cases = append(cases, cs)
+		}
+	}
 	for _, cs := range cases {
 		if cs.Data.Len > 0 {
 			c.ev.nontrivial(histString(cs.Ops) + "|" + cs.Tag + "|" + cs.Data.Class)
 		}
 	}
-	c.ev.Rule = fmt.Sprintf("every history of %d calls over {Write(0|small|large), Flush} then Close (TLC, WriterModel) on %d of %d flate settings (levels -2..9, default, 4K window, dictionaries) at EVERY acceleration level, plus %d long multi-slide inputs; non-trivial = non-empty data; distinct by (history, setting, data class)", maxLen, per, len(flateOnly), nLong)
+	c.ev.Rule = fmt.Sprintf("every history of %d calls over {Write(0|small|large), Flush} then Close (TLC, WriterModel) on %d of %d flate settings (levels -2..9, default, 4K window, dictionaries) at EVERY acceleration level, plus %d long multi-slide inputs, inputs made of far back-references of every length, size sweeps around the 8 KiB output-piece boundaries and short inputs with a single match at the very end; non-trivial = non-empty data; distinct by (history, setting, data class)", maxLen, per, len(flateOnly), nLong)
 	c.ev.Exhaustive = true
 	for _, cs := range spread(cases) {
 		c.ev.sample(map[string]interface{}{"history": histString(cs.Ops), "setting": cs.Tag, "data": cs.Data})
